@@ -110,6 +110,36 @@ RAW = {
 
 
 
+
+
+def _cx_rev():  # target = first qubit argument, control = second
+    m = np.zeros((4, 4), dtype=complex)
+    for i in range(4):
+        t = i & 1
+        c = (i >> 1) & 1
+        j = (t ^ c) | (c << 1)
+        m[j, i] = 1
+    return m
+
+
+def _ccz():
+    m = np.eye(8, dtype=complex)
+    m[7, 7] = -1
+    return m
+
+
+# Variant B: the same names and signatures bound to *different* matrices (a second native gate
+# set in the same process: a stale per-name cache or a hard-wired matrix becomes visible).
+RAW_B = dict(RAW)
+RAW_B.update({
+    "X": (RAW["X"][0], U_H), "H": (RAW["H"][0], U_X), "S": (RAW["S"][0], U_T2), "T2": (RAW["T2"][0], U_S),
+    "Rx": (RAW["Rx"][0], U_Ry), "Ry": (RAW["Ry"][0], U_Rz), "Rz": (RAW["Rz"][0], U_Rx),
+    "CX": (RAW["CX"][0], _cx_rev), "CP": (RAW["CP"][0], lambda t: U_CP(-2 * t)),
+    "CRy": (RAW["CRy"][0], lambda t: U_CRy(-t)), "MS": (RAW["MS"][0], lambda a, t: U_MS(a + 0.5, t)),
+    "CCX": (RAW["CCX"][0], _ccz), "PW": (RAW["PW"][0], lambda k: U_PW(-k)),
+})
+VARIANTS = {"A": RAW, "B": RAW_B}
+
 GATES = {name: [(pn, k) for pn, k in params] for name, (params, fn) in RAW.items()}
 for _n in list(RAW):
     GATES["I_" + _n] = GATES[_n]
@@ -123,11 +153,11 @@ def base(name):
     return name[2:] if name.startswith("I_") else name
 
 
-def unitary(name, classical):
+def unitary(name, classical, variant="A"):
     """Independent evaluation of a gate matrix; None for idle / unitary-less gates."""
     if name.startswith("I_") or name in ("prepare_all", "measure_all"):
         return None
-    fn = RAW[name][1]
+    fn = VARIANTS[variant][name][1]
     if fn is None:
         return None
     return np.asarray(fn(*classical), dtype=complex)
